@@ -17,7 +17,8 @@ package main
 //                   certificate; the C15 value / structure checks run on the signed message too;
 //   correspondence: the bytes must equal etree_write of the model's signed tree (Build.v), DigestValue / SignatureValue
 //                   being read back from the output; sp.SigningContext()'s Hash / identifiers / canonicaliser and
-//                   GetSigningCertBytes must equal the model's.
+//                   GetSigningCertBytes must equal the model's; a covering subset of the plans is evaluated once more
+//                   with the MODELLED signer (c13signer.go, coq/Signer.v): the model computes the two values itself.
 
 import (
 	"crypto"
@@ -283,7 +284,7 @@ func c13Find(e *etree.Element, path ...string) *etree.Element {
 
 func init() {
 	runners["C13"] = func(c *Ctx) {
-		c.Rep.Rule = "signed AuthnRequest / LogoutRequest / LogoutResponse over 16 key configurations (4 slots present/absent, 4 RSA key pairs; plus ECDSA / Ed25519 signers and a failing key store) x 8 algorithm settings x 7 canonicaliser settings x 3 kinds x configuration strings with markup / quotes / whitespace / non-ASCII: serialise, re-parse, verify with goxmldsig against the designated slot's certificate only, compare declared algorithms / placement / embedded certificate; bytes compared with the Coq model (DigestValue, SignatureValue read back); non-trivial = non-default key configuration, algorithm, canonicaliser or special characters; distinct by (kind, key configuration, algorithm, canonicaliser, classes)"
+		c.Rep.Rule = "signed AuthnRequest / LogoutRequest / LogoutResponse over 16 key configurations (4 slots present/absent, 4 RSA key pairs; plus ECDSA / Ed25519 signers and a failing key store) x 8 algorithm settings x 7 canonicaliser settings x 3 kinds x configuration strings with markup / quotes / whitespace / non-ASCII: serialise, re-parse, verify with goxmldsig against the designated slot's certificate only, compare declared algorithms / placement / embedded certificate; bytes compared with the Coq model (DigestValue, SignatureValue read back), and for every (kind, canonicaliser), (algorithm, canonicaliser) and key configuration at least once with the MODELLED signer (Signer.v: DigestValue / SignatureValue computed by the model from Canon.canon_model and the digest / signature tables captured from the real run; the model's questions compared with what the library hashed); non-trivial = non-default key configuration, algorithm, canonicaliser or special characters; distinct by (kind, key configuration, algorithm, canonicaliser, classes)"
 		runC13(c)
 		runC13Histories(c)
 	}
